@@ -1,5 +1,5 @@
 """C07 -- curve operations form the standard group in all four curve modules."""
-from .. import constants, curves, grouptrace, tables
+from .. import constants, curvemachine, curves, grouptrace, tables
 
 
 def curve_tables(ctx, mods=None, only_ops=None, secp=False, name="CurveTable"):
@@ -21,3 +21,7 @@ def run(ctx):
     # full size: every module x base / twist group against the abstract group Z_r x Z_l (BigNat)
     grouptrace.run_traces(ctx, [(m, g) for m in grouptrace.SPECS for g in (1, 2, 12)])
     curve_tables(ctx, only_ops={"add", "double", "neg", "mul", "eq", "onc", "isinf", "norm", "twist", "twadd"})
+    # (A) the group laws on every register file over all points of small curves; (B) TLC-generated programs
+    # replayed into the four modules, registers holding the representatives the code itself produced
+    curvemachine.run_exhaustive(ctx)
+    curvemachine.run_machine(ctx)
